@@ -45,8 +45,9 @@ def gen_cases(tier, seed):
         direct = mapcases.nasty_quick_cases(rng, 16)
     else:
         cases += mapcases.exhaustive_shape_cases(rng)
-        cases += mapcases.random_large_cases(rng, 600)
-        direct = mapcases.nasty_quick_cases(rng, 200)
+        cases += mapcases.random_large_cases(rng, 2400)
+        cases += mapcases.nasty_quick_cases(rng, 1600)
+        direct = mapcases.nasty_quick_cases(rng, 800)
     for i, c in enumerate(direct):
         c['mode'] = 'direct'
         c['collect'] = 'manager' if i % 2 == 0 else 'file'
